@@ -299,6 +299,45 @@ def schema_ops(fa, schema):
     return {"canonical": outcome(lambda: fa.schema.to_parsing_canonical_form(schema)), "generate": outcome(gen), "json-absent-keys": outcome(json_absent)}
 
 
+def _has_hint(d):
+    if isinstance(d, tuple) and len(d) == 2 and isinstance(d[0], str):
+        return True
+    if isinstance(d, dict):
+        return "-type" in d or any(_has_hint(v) for v in d.values())
+    if isinstance(d, (list, tuple)):
+        return any(_has_hint(v) for v in d)
+    return False
+
+
+def _shorten_hint(d):
+    """The datum with its first dotted hint name cut to the last segment (None when there is none)."""
+    done = [False]
+
+    def walk(x):
+        if done[0]:
+            return x
+        if isinstance(x, tuple) and len(x) == 2 and isinstance(x[0], str):
+            if "." in x[0]:
+                done[0] = True
+                return (x[0].rsplit(".", 1)[1], x[1])
+            return (x[0], walk(x[1]))
+        if isinstance(x, dict):
+            out = {}
+            for k, v in x.items():
+                if k == "-type" and isinstance(v, str) and "." in v and not done[0]:
+                    done[0] = True
+                    out[k] = v.rsplit(".", 1)[1]
+                else:
+                    out[k] = walk(v)
+            return out
+        if isinstance(x, list):
+            return [walk(v) for v in x]
+        return x
+
+    out = walk(d)
+    return out if done[0] else None
+
+
 def run_unit(i, tier):
     import fastavro as fa
     import fastavro.schema  # noqa
@@ -310,6 +349,10 @@ def run_unit(i, tier):
     top_named = isinstance(raw, dict) and raw.get("type") in ("record", "enum", "fixed")
     hoistable = allnamed[1:] if top_named else allnamed
     data = [d for d, c in alphabet.data_for(node, defs, 1, hints=False, big=False)][:60]
+    # hinted data: with the full branch name, and with only its last segment (whatever a form makes of the short spelling -
+    # accepted or refused - every form must make the same of it)
+    hinted = [d for d, c in alphabet.data_for(node, defs, 1, hints=True, big=False) if _has_hint(d)][:24]
+    data += hinted + [x for x in (_shorten_hint(d) for d in hinted) if x is not None]
     if isinstance(raw, dict) and raw.get("name") == "Pick":
         data += [{"u": {"a": 1, "b": 2, "c": 3}}, {"u": {"c": 3}}, {"u": {"a": 1}}, {"u": {}, "us": [{"a": 1, "b": 2, "c": 3}, {"b": 1}, None]}]
     forms = [("raw", lambda: copy.deepcopy(raw), frozenset())]
